@@ -106,8 +106,11 @@ def impl(case):
             return [[-2], [st]]
         return [idx_list(flw.idxs_seq), [int(flw.nnodes)]]
     if k == 305:
+        # the node count is read first, from an object that has memoised nothing yet (round-3 seed: counting the
+        # valid cells instead of the cells that reach a pit)
+        st0, nn = call_impl(lambda: int(flw.nnodes))
         st, v = call_impl(lambda: bool(flw.isvalid))
-        return [[int(v)]] if st == "ok" else [[-2], [st]]
+        return [[int(v)], [nn]] if st == "ok" and st0 == "ok" else [[-2], [st0, st]]
     if k == 306:
         pre = call.get("pre")
         if pre:   # a previous ordering (and whatever it memoised) must not survive the repair
@@ -167,7 +170,8 @@ def oracle(case, out):
         return None if out == [exp] else ("loops", f"expected {exp} got {out}")
     if k == 305:
         exp = int(all(r != -1 for r in rk))
-        return None if out == [[exp]] else ("isvalid", f"expected {exp} got {out}")
+        nn = sum(1 for r in rk if r is not None and r >= 0)
+        return None if out == [[exp], [nn]] else ("isvalid", f"expected {[[exp], [nn]]} got {out}")
     if k == 306:
         exp = [i if rk[i] == -1 else ds[i] for i in range(n)]
         pits = [i for i in range(n) if exp[i] == i]
